@@ -560,6 +560,17 @@ func (l *segment) open() error {
 	}
 	l.pos = int64(pos)
 
+	// The head offset must lie on a record boundary: the records from there on end exactly
+	// where the footer begins. An append or an advance that a crash interrupted leaves
+	// other bytes in the footer's place (an append writes the new records over it before it
+	// writes it again behind them). The records are still there; only how far they had
+	// been delivered is lost, so they are kept and delivered again from the first one.
+	if l.size < footerSize || !l.recordsEndAt(l.pos, l.size-footerSize) {
+		if err := l.recoverRecords(); err != nil {
+			return err
+		}
+	}
+
 	if err := l.seekToCurrent(); err != nil {
 		l.pos = 0
 		return err
@@ -575,6 +586,62 @@ func (l *segment) open() error {
 		l.currentSize = int64(currentSize)
 	}
 
+	return nil
+}
+
+// recordsEndAt reports whether complete records follow one another from offset pos up to
+// exactly offset end.
+func (l *segment) recordsEndAt(pos, end int64) bool {
+	if pos < 0 || pos > end {
+		return false
+	}
+	var hdr [8]byte
+	for pos < end {
+		if pos+8 > end {
+			return false
+		}
+		if _, err := l.file.ReadAt(hdr[:], pos); err != nil {
+			return false
+		}
+		n := binary.BigEndian.Uint64(hdr[:])
+		if n > uint64(end-pos-8) {
+			return false
+		}
+		pos += 8 + int64(n)
+	}
+	return true
+}
+
+// recoverRecords rebuilds a segment whose footer is unusable: the complete records from
+// the start of the file are kept, whatever follows them is cut off, and the head offset
+// points at the first record again.
+func (l *segment) recoverRecords() error {
+	var hdr [8]byte
+	end := int64(0)
+	for end+8 <= l.size {
+		if _, err := l.file.ReadAt(hdr[:], end); err != nil {
+			break
+		}
+		n := binary.BigEndian.Uint64(hdr[:])
+		if n > uint64(l.size-end-8) {
+			break
+		}
+		end += 8 + int64(n)
+	}
+	if err := l.file.Truncate(end); err != nil {
+		return err
+	}
+	l.pos = 0
+	if err := l.seek(end); err != nil {
+		return err
+	}
+	if err := l.writeUint64(0); err != nil {
+		return err
+	}
+	if err := l.file.Sync(); err != nil {
+		return err
+	}
+	l.size = end + footerSize
 	return nil
 }
 
